@@ -38,6 +38,14 @@ func c08Step(x *engine.Exec) []engine.Failure {
 			x.Cnt.Inc("slash.validator_without_alliance_stake")
 		}
 		for _, r := range ref.pendingRedsFrom(x.Op.V, prev.Time) {
+			for _, amt := range modulePending(x.W, x.Prev.Ctx, r.Dst) {
+				if amt.Cmp(ratI(1)) >= 0 {
+					x.Cnt.Inc("slash.with_rewards_pending_on_a_destination")
+					break
+				}
+			}
+		}
+		for _, r := range ref.pendingRedsFrom(x.Op.V, prev.Time) {
 			if _, err := x.W.App.StakingKeeper.GetValidator(x.Prev.Ctx, x.W.Vals[r.Dst]); err != nil {
 				x.Cnt.Inc("slash.with_pending_redelegation_into_removed_validator")
 				break
@@ -243,14 +251,33 @@ func init() {
 				sc.Required = append(append([]string{}, sc.Required...), "slash.callback_aborted")
 				return sc
 			}
+			// reward inflow: the callback settles the destination of every pending redelegation (ClaimDelegationRewards, which
+			// withdraws and splits the destination validator's rewards) right after the slashed validator's shares were cut - by
+			// 100% here, which leaves an asset staked only there with tokens but without shares
+			rew := mk("c08-rewards-and-full-slash", c07Config(), []string{"0.5", "1"}, tierPick(tier, []int{1, 1, 1, 2, 0}, []int{2, 2, 2, 3, 0}), tierPick(tier, 5, 7), world.ModuleStores)
+			rew.Seeds = [][]world.Op{{opDel(0, 0, "aaa", "1000"), opDel(0, 1, "aaa", "1000"), opDel(1, 0, "bbb", "1000"), opBlock(1)}}
+			rew.Ops = func(n *engine.Node) []world.Op {
+				ops := []world.Op{
+					{K: world.KRedelegate, D: 0, V: 0, V2: 1, Denom: "aaa", Amt: "300", Class: ClsUser},
+					{K: world.KSlash, V: 0, F: "1", Class: ClsSlash}, {K: world.KSlash, V: 0, F: "0.5", Class: ClsSlash},
+					{K: world.KBlock, Dt: int64(U), Class: ClsBlock},
+				}
+				if atBlockStart(n) {
+					ops = append(ops, world.Op{K: world.KReward, Denom: "stake", Amt: "1000003", Class: ClsEnv})
+				}
+				return ops
+			}
+			rew.Required = []string{"slash.executed", "slash.with_rewards_pending_on_a_destination"}
 			if tier == "thorough" {
 				return []*engine.Scenario{
+					rew,
 					mk("c08-hook", c07Config(), fr, []int{5, 2, 0, 2, 1}, 9, world.ModuleStores),
 					staking(fr, []int{4, 2, 0, 2, 1}, 7),
 					removedDst([]int{3, 2, 1, 5, 0}, 10),
 				}
 			}
 			return []*engine.Scenario{
+				rew,
 				mk("c08-hook", c07Config(), []string{"0.01", "1"}, []int{3, 2, 0, 1, 1}, 5, world.ModuleStores),
 				staking([]string{"0.5", "1"}, []int{3, 1, 0, 1, 1}, 4),
 				removedDst([]int{2, 1, 1, 4, 0}, 8),
